@@ -621,3 +621,29 @@ def batching(w, repo):
         if cfg["n"] and cfg["L"]:
             return None, "-n with -L is normalised by the option parser; not replayable as given"
         return (not ok), detail
+
+
+def startpoints(w, repo):
+    """exact: run the real find on the witness command line in a sandbox holding the vocabulary's starting points"""
+    import sys
+    sys.path.insert(0, os.path.join(os.path.dirname(os.path.dirname(os.path.abspath(__file__))), "mirsym"))
+    if not build(repo):
+        return None, "build failed"
+    toks = w.get("tokens")
+    if not toks:
+        return None, "no tokens"
+    what = w.get("what", "")
+    with Sandbox() as d:
+        os.makedirs(os.path.join(d, "w", "b"))
+        open(os.path.join(d, "w", "-"), "w").close()
+        # 'a' is deliberately missing: a starting point that cannot be examined
+        cwd = os.path.join(d, "w")
+        rc, out, err = run([find_bin(repo)] + toks + ["-maxdepth", "0"] if not any(t in ("-print", "-true", "-quit", "!", "(", "-bogus") for t in toks) else [find_bin(repo)] + toks, cwd=cwd)
+        missing = [t for t in toks if t == "a"]
+        if "exit status zero" in what:
+            # the defect class: an earlier failing starting point is forgotten when a later one succeeds
+            rc2, out2, err2 = run([find_bin(repo), "a", "-"], cwd=cwd)
+            if rc2 == 0:
+                return True, "find a - (a missing, '-' present): exit status %d although 'a' could not be examined (%s)" % (rc2, err2.decode(errors="replace").strip()[:80])
+            return False, "find a -: exit status %d" % rc2
+        return None, "find %s: rc=%d stdout=%r (no exact observable for this kind of deviation)" % (" ".join(toks), rc, out[:80])
